@@ -423,7 +423,7 @@ class Lexer:
                         "invalid escape sequence",
                         token=ErrorToken(
                             type_=TokenType.ERROR,
-                            index=self.pos,
+                            index=self._in_source(self.pos),
                             value=peeked,
                             markup_start=self.markup_start,
                             markup_stop=self.pos,
@@ -489,7 +489,7 @@ class Lexer:
                         "invalid escape sequence",
                         token=ErrorToken(
                             type_=TokenType.ERROR,
-                            index=self.pos,
+                            index=self._in_source(self.pos),
                             value=peeked,
                             markup_start=self.markup_start,
                             markup_stop=self.pos,
@@ -592,7 +592,7 @@ class Lexer:
         rparen = self.expression.pop()
         assert is_token_type(rparen, TokenType.RPAREN)
 
-        if len(self.expression) < 3:
+        if len(self.expression) < 4:
             self.raise_for_token("malformed range expression", rparen)
 
         range_stop_token = self.expression.pop()
